@@ -44,7 +44,7 @@ St == [
   supply |-> [d \in AllD |-> SumOver(Accts, LAMBDA a : bank[a][d])],
   amm    |-> [pools |-> [p \in PoolIds |->
                 [addr |-> PoolAddr(p), shares |-> pools[p].shares, shareDenom |-> ShareOf(p), useOracle |-> FALSE,
-                 assets |-> [d \in Denoms |-> [amt |-> pools[p].res[d], weight |-> 1]]]],
+                 assets |-> [d \in Denoms |-> [amt |-> pools[p].res[d], weight |-> 1, weightI |-> 1]]]],
              denomLiq |-> [d \in Denoms |-> SumOver(PoolIds, LAMBDA p : pools[p].res[d])],
              queue |-> 0],
   commit |-> [total |-> total,
